@@ -134,6 +134,11 @@ fn run_program(ti: usize, bars: &[ProgressBar], mp: &Option<MultiProgress>, anch
                 let t = ["{spinner} {pos}/{len} {msg}", "{msg}\n{pos}", "{prefix}{wide_msg}"][(op.n1() % 3) as usize];
                 pb.set_style(ProgressStyle::with_template(t).unwrap());
             }),
+            "debug_fmt" => call(|| {
+                // rarely used trait methods: Debug of the handle and of the adaptor
+                let _ = format!("{:?}", pb);
+                let _ = format!("{:?}", pb.wrap_iter(0..0));
+            }),
             "getters" => call(|| {
                 let _ = (pb.message(), pb.prefix(), pb.elapsed(), pb.duration(), pb.per_sec(), pb.style(), pb.is_hidden());
             }),
@@ -500,7 +505,7 @@ impl Check for C08 {
         "C08"
     }
     fn rule_text(&self) -> String {
-        "race: 2..3 simulated user threads each run 2..6 calls of update/enable_steady_tick/disable_steady_tick/tick/inc/set_message/println/suspend/finish/is_finished/getters/clone+drop/reset/set_length/mp.println/mp.suspend/mp.clear/mp.remove/mp.add (re-attach)/finish through a clone dropped on the same thread/set_style/message+prefix+elapsed+duration+per_sec+style getters/downgrade+upgrade/wrap_iter completion/mp.insert+insert_from_back+add of a fresh bar/insert_before+insert_after relative to a permanent member that other threads tick and update/mp.set_alignment/advance/sleep on 1..3 shared bars (standalone or in a MultiProgress, hidden or on a simulated terminal), tick intervals 1 ms..10 h, under a seeded random / sticky / PCT scheduler with spurious condvar wake-ups and clock jitter; every lock, condvar, spawn, join (and optionally atomic) is a scheduling point. Oracles: no deadlock (no runnable thread and no pending timer; wait-for graph reported), all threads terminate once all handles are gone, disable/replace/drop return without the virtual clock having to move and leave no ticker thread behind. ticker: one user thread with phases enable / sleep k intervals / manual tick / inc / set_message / finish / disable: the ticker paints >= k-1 frames while idle, manual ticks do not advance the spinner, consecutive ticker frames advance it by one, no ticker frames after stop, the ticker thread is gone after finish (within two intervals), disable and drop. Non-trivial: race = >= 2 threads with operations; ticker = >= 2 phases. Distinct = distinct scenario hash; distinct interleavings reported separately.".into()
+        "race: 2..3 simulated user threads each run 2..6 calls of update/enable_steady_tick/disable_steady_tick/tick/inc/set_message/println/suspend/finish/is_finished/getters/clone+drop/reset/set_length/mp.println/mp.suspend/mp.clear/mp.remove/mp.add (re-attach)/finish through a clone dropped on the same thread/set_style/message+prefix+elapsed+duration+per_sec+style getters/downgrade+upgrade/wrap_iter completion/Debug formatting/mp.insert+insert_from_back+add of a fresh bar/insert_before+insert_after relative to a permanent member that other threads tick and update/mp.set_alignment/advance/sleep on 1..3 shared bars (standalone or in a MultiProgress, hidden or on a simulated terminal), tick intervals 1 ms..10 h, under a seeded random / sticky / PCT scheduler with spurious condvar wake-ups and clock jitter; every lock, condvar, spawn, join (and optionally atomic) is a scheduling point. Oracles: no deadlock (no runnable thread and no pending timer; wait-for graph reported), all threads terminate once all handles are gone, disable/replace/drop return without the virtual clock having to move and leave no ticker thread behind. ticker: one user thread with phases enable / sleep k intervals / manual tick / inc / set_message / finish / disable: the ticker paints >= k-1 frames while idle, manual ticks do not advance the spinner, consecutive ticker frames advance it by one, no ticker frames after stop, the ticker thread is gone after finish (within two intervals), disable and drop. Non-trivial: race = >= 2 threads with operations; ticker = >= 2 phases. Distinct = distinct scenario hash; distinct interleavings reported separately.".into()
     }
     fn assumptions(&self) -> Vec<String> {
         vec![
@@ -593,7 +598,7 @@ impl Check for C08 {
             for _ in 0..n {
                 let b = rng.below(nb);
                 let owner = (b as usize) % nt == ti;
-                let k = rng.weighted(&[8, if owner { 6 } else { 0 }, if owner { 5 } else { 0 }, 4, 4, 3, 2, 2, 3, 2, 2, 2, 1, 1, 1, 1, 1, 3, 2, 2, 2, 1, 1, 1, 1, 1, 1, 1, 2, 2]);
+                let k = rng.weighted(&[8, if owner { 6 } else { 0 }, if owner { 5 } else { 0 }, 4, 4, 3, 2, 2, 3, 2, 2, 2, 1, 1, 1, 1, 1, 3, 2, 2, 2, 1, 1, 1, 1, 1, 1, 1, 2, 2, 1]);
                 ops.push(match k {
                     0 => Op::new("update").n(b).n(rng.below(100)),
                     1 => Op::new("enable_steady_tick").n(b).n(rng.below(5)),
@@ -624,6 +629,7 @@ impl Check for C08 {
                     27 => Op::new("mp_align").n(b).n(rng.below(2)),
                     28 => Op::new("mp_insert_rel").n(b).n(rng.below(2)),
                     29 => Op::new("anchor_op").n(b).n(rng.below(4)),
+                    30 => Op::new("debug_fmt").n(b),
                     _ => Op::new("sleep").n(0).n(*rng.pick(&[1_000_000, 15_000_000])),
                 });
             }
